@@ -178,9 +178,9 @@ mut("C07", "r3-queue-double", "modules/tasks.go",
 mut("C07", "r3-no-wait", "modules/tasks.go",
     "\t\t\t// wait for execution slot\n\t\t\tqueueWg.Wait()\n", "", "C07-R3|wait")
 mut("C07", "r4-no-done", "modules/tasks.go",
-    "\t\tselect {\n\t\tcase <-t.ctx.Done():\n\t\tcase <-time.After(maxExecutionWait):\n\t\t}\n\t\t// complete queue worker (early) to allow next worker\n\t\tqueueWg.Done()", "\t\tselect {\n\t\tcase <-t.ctx.Done():\n\t\t\t// complete queue worker (early) to allow next worker\n\t\t\tqueueWg.Done()\n\t\tcase <-time.After(maxExecutionWait):\n\t\t}", "C07-R4|Done on every path")
+    "\t\tselect {\n\t\tcase <-execCtx.Done():\n\t\tcase <-time.After(maxExecutionWait):\n\t\t}\n\t\t// complete queue worker (early) to allow next worker\n\t\tqueueWg.Done()", "\t\tselect {\n\t\tcase <-execCtx.Done():\n\t\t\t// complete queue worker (early) to allow next worker\n\t\t\tqueueWg.Done()\n\t\tcase <-time.After(maxExecutionWait):\n\t\t}", "C07-R4|Done on every path")
 mut("C07", "r4-done-early", "modules/tasks.go",
-    "\t\tselect {\n\t\tcase <-t.ctx.Done():\n\t\tcase <-time.After(maxExecutionWait):\n\t\t}\n\t\t// complete queue worker (early) to allow next worker\n\t\tqueueWg.Done()", "\t\t// complete queue worker (early) to allow next worker\n\t\tqueueWg.Done()", "C07-R4|Done after task end")
+    "\t\tselect {\n\t\tcase <-execCtx.Done():\n\t\tcase <-time.After(maxExecutionWait):\n\t\t}\n\t\t// complete queue worker (early) to allow next worker\n\t\tqueueWg.Done()", "\t\t_ = execCtx\n\t\t// complete queue worker (early) to allow next worker\n\t\tqueueWg.Done()", "C07-R4|Done after task end")
 mut("C07", "r5-run-without-timer", "modules/tasks.go",
     "\t\tcase <-notifyTaskScheduler:\n\t\t\tcontinue\n\t\tcase <-waitUntilNextScheduledTask():", "\t\tcase <-waitUntilNextScheduledTask():\n\t\t\tcontinue\n\t\tcase <-notifyTaskScheduler:", "C07-R5|guard schedule timer fired")
 mut("C07", "r5-insert-after-later", "modules/tasks.go",
@@ -951,3 +951,10 @@ r6("C17", "r10-zip-member-not-truncated", "C17-f2", "C17-R10|updater.copyFromZip
 r6("C20", "r8-writer-error-shadowed", "C20-f1", "C20-R8|log.writer$1")
 mut("C11", "r12-tokenizer-splits-on-comma", "database/query/parser.go",
     "\t\tcase '\\t', '\\n', '\\r', ' ', '(', ')':", "\t\tcase '\\t', '\\n', '\\r', ' ', ',', '(', ')':", "C11-R12|database/query.extractSnippets / separators are quoted by the printer")
+
+# fixes 8914cb4 / 0b02d0c
+mut("C07", "r12-handler-does-not-check-due", "modules/tasks.go",
+    "\t\t\tif time.Now().Before(t.executeAt) {\n\t\t\t\tscheduleLock.Unlock()\n\t\t\t\tcontinue\n\t\t\t}\n", "", "C07-R12|modules.taskScheduleHandler /", comment="reverts fix 0b02d0c")
+mut("C07", "r13-watcher-reads-task-ctx", "modules/tasks.go",
+    "\t\tcase <-execCtx.Done():", "\t\tcase <-t.ctx.Done():", "C07-R13|modules.(*Task).runWithLocking", comment="reverts fix 8914cb4",
+    extra=[{"file": "modules/tasks.go", "old": "\texecCtx := t.ctx\n", "new": ""}])
